@@ -128,6 +128,17 @@ def _check_encoding(spec, ctx, all_tags, vocab, tags, scores):
         if enc.encode(d) != i:
             ctx.fail(f"encode(decode({i})) = {enc.encode(d)}", spec, enc.encode(d), i, kind="decode_encode")
 
+    # one long-lived encoder asked about short-lived tags (built for the question and dropped, as a prediction loop does): the answer
+    # depends on what the tag IS, not on which object (or which recycled address) carries it
+    for _ in range(2):
+        for t in all_tags:
+            got = enc.encode(data.Tag(term=t.term, value=t.value))
+            if got != ref_encode(t):
+                ctx.fail(f"encode of a temporary tag equal to {t.term.name}|{t.term.label}={t.value!r} = {got}, expected {ref_encode(t)}", spec, got, ref_encode(t), kind="encode_temporary")
+        for t in reversed(all_tags):
+            got = enc.encode(t.model_copy(deep=True))
+            if got != ref_encode(t):
+                ctx.fail(f"encode of a temporary deep copy of {t.term.name}|{t.term.label}={t.value!r} = {got}, expected {ref_encode(t)}", spec, got, ref_encode(t), kind="encode_temporary")
     ctx.unchanged(spec, "create_tag_encoder: the vocabulary list", vocab_before, vocab)
     exp_cls = next((i for i in in_vocab if i is not None), None)
     got_cls = encoding.classification_encoding(tags, enc)
@@ -248,8 +259,10 @@ def hash_case(draw):
         "value_a": draw(st.sampled_from(["a", "b", ""])), "value_b": draw(st.sampled_from(["a", "b", ""])),
         "fa": draw(st.sampled_from(FLOATS)), "fb": draw(st.sampled_from(FLOATS)),
         "int_b": draw(st.booleans()),
+        # the same instant written with different UTC offsets (aware datetimes compare by instant); None = naive
+        "tz_a": draw(st.sampled_from([None, None, 0, 1, -5])), "tz_b": draw(st.sampled_from([None, None, 0, 1, -5])),
         "payload_a": draw(st.integers(0, 2)), "payload_b": draw(st.integers(0, 2)),
-        "variant": draw(st.sampled_from(["independent", "deepcopy", "revalidate", "same_fields", "copy_update", "copy_update"])),  # revalidate = pydantic model_copy(deep=True)
+        "variant": draw(st.sampled_from(["independent", "deepcopy", "revalidate", "same_fields", "copy_update", "copy_update", "assign"])),  # revalidate = pydantic model_copy(deep=True)
     }
 
 
@@ -277,13 +290,17 @@ def _make(spec, side):
         return data.Tag(term=term, value=spec["value" + s])
     if cls == "Feature":
         return data.Feature(term=term, value=f)
+    tz = spec.get("tz" + s)
+    if tz not in (None, 0, 1, -5):
+        raise ValueError("malformed spec")
+    created = "2020-01-01T12:00:00" if tz is None else f"2020-01-01T{12 + tz:02d}:00:00{'+' if tz >= 0 else '-'}{abs(tz):02d}:00"
     if cls == "Note":
-        return data.Note(uuid=uid, message=spec["value" + s], created_on="2020-01-01T00:00:00", is_issue=bool(payload % 2))
+        return data.Note(uuid=uid, message=spec["value" + s], created_on=created, is_issue=bool(payload % 2))
     se = data.SoundEvent(uuid=uid, recording=rec, geometry=data.TimeStamp(coordinates=abs(f) if abs(f) < 1e9 else 1.0), features=[data.Feature(term=term, value=1.0)] if payload else [])
     if cls == "SoundEvent":
         return se
     if cls == "SoundEventAnnotation":
-        return data.SoundEventAnnotation(uuid=uid, sound_event=se, created_on="2020-01-01T00:00:00", tags=[data.Tag(term=term, value="x")] if payload else [])
+        return data.SoundEventAnnotation(uuid=uid, sound_event=se, created_on=created, tags=[data.Tag(term=term, value="x")] if payload else [])
     if cls == "SoundEventPrediction":
         return data.SoundEventPrediction(uuid=uid, sound_event=se, score=min(1.0, abs(f)) if abs(f) <= 1 else 0.5)
     clip = data.Clip(uuid=str(uuidlib.UUID(int=98)), recording=rec, start_time=0.0, end_time=1.0)
@@ -305,6 +322,10 @@ def check_hash(spec, ctx):
             if k.endswith("_b") and k != "int_b":
                 s2[k] = s2[k[:-2] + "_a"]
         s2["fb"] = s2["fa"]
+        if s2.get("tz_a") is not None and s2.get("tz_b") is None:
+            s2["tz_b"] = s2["tz_a"]
+        if s2.get("tz_a") is None:
+            s2["tz_b"] = None
         if s2.get("term_extra"):
             s2["term_extra"] = [s2["term_extra"][0], s2["term_extra"][0]]
         b = _make(s2, "b")
@@ -323,6 +344,17 @@ def check_hash(spec, ctx):
             if fresh not in {b} or {b: 1}.get(fresh) != 1:
                 ctx.case(spec, nontrivial=True, labels=[spec["cls"], v, "equal"])
                 ctx.fail(f"{spec['cls']}: derived copy and fresh object are not interchangeable as set member / dict key", spec, None, None, kind="set_membership")
+    elif v == "assign":
+        # the object is hashed and used as a set member, then every field is assigned the value a freshly built object has
+        # (models are mutable): the two now compare equal and so must hash equally
+        hash(a)
+        {a}
+        b = _make(spec, "b")
+        if type(a).model_config.get("frozen"):
+            ctx.label("assign_on_frozen_class_skipped")
+        else:
+            for k in type(b).model_fields:
+                setattr(a, k, getattr(b, k))
     else:
         b = _make(spec, "b")
     equal = a == b
